@@ -20,7 +20,7 @@ META = {
                   'load_h5_as_striped (world size 1)'],
     'bounds': {'quick': 'save/load: R in {1,2,3,9,10,11,12} rows (crossing the 9->10 digit boundary of the key names), row lengths cycling '
                         '1..3, symbolic cells, int64 and float64, stride 1..3, key subsets, a path that already holds an earlier save (6->3, 12->3, 3->12, 2->2 rows); sound_trajectory: UNBOUNDED frame count, stride '
-                        '1..8; parallel load: <=3 files of <=3 frames, stride 1..2, frame=, atom selection, both task orders, lengths hint '
+                        '1..8; parallel load: <=3 files of <=3 frames (<=5 files when several carry frame=), stride 1..2, frame=, atom selection, both task orders, lengths hint '
                         'none/right/wrong; striped npy/h5 loading: <=3 files, stride 1..2',
                'thorough': 'R up to 101 (99->100 boundary); parallel loads of up to 4 files (length<=5), stride<=3; striped loads of up to 4 files; sound_trajectory stride<=32'},
     'stubs': ['tables = in-memory store whose list_nodes() returns children sorted by name, with open modes w / a / r, root membership, duplicate-name '
@@ -250,6 +250,8 @@ def sound_job(stride):
 def parload_job(lens, stride=1, hint='none', atoms=None, frame_for=None, as_args=False, strides=None):
     # strides: one stride PER FILE, passed in the per-file form args=[{'stride': s0}, {'stride': s1}, ...] (None entry = no stride key)
     lens = list(lens)
+    # frame_for: index of the file loaded with frame=1 (a single frame), or a tuple of such indices
+    ff = () if frame_for is None else ((frame_for,) if isinstance(frame_for, int) else tuple(frame_for))
 
     def setup(sym):
         stubs_io.reset()
@@ -275,7 +277,7 @@ def parload_job(lens, stride=1, hint='none', atoms=None, frame_for=None, as_args
             kw['atom_indices'] = list(atoms)
         args = None
         if frame_for is not None:
-            args = [dict(kw, frame=1) if i == frame_for else dict(kw) for i in range(len(files))]
+            args = [dict(kw, frame=1) if i in ff else dict(kw) for i in range(len(files))]
             kw = {}
         elif strides is not None:
             args = [dict(kw, **({} if s_ is None else {'stride': s_})) for s_ in strides]
@@ -284,7 +286,7 @@ def parload_job(lens, stride=1, hint='none', atoms=None, frame_for=None, as_args
             # the per-file form args=[{...}, ...] (what load_trajectory_as_striped and cluster/util.py pass) instead of keyword arguments
             args = [dict(kw) for _ in files]
             kw = {}
-        true_l = [1 if (frame_for == i) else len(range(0, n, (strides[i] or 1) if strides is not None else stride)) for i, n in enumerate(lens)]
+        true_l = [1 if (i in ff) else len(range(0, n, (strides[i] or 1) if strides is not None else stride)) for i, n in enumerate(lens)]
         lh = None
         if hint == 'right':
             lh = list(true_l)
@@ -296,7 +298,7 @@ def parload_job(lens, stride=1, hint='none', atoms=None, frame_for=None, as_args
     def expected(data):
         out = []
         for i, x in enumerate(data):
-            y = x[1:2] if frame_for == i else x[::((strides[i] or 1) if strides is not None else stride)]
+            y = x[1:2] if i in ff else x[::((strides[i] or 1) if strides is not None else stride)]
             if atoms is not None:
                 y = y[:, list(atoms)]
             out.append(y)
@@ -485,6 +487,11 @@ def jobs(tier):
         add('parload_job', 'parload[%s,hint=wrong]' % list(lens), lens=lens, hint='wrong')
         add('parload_job', 'parload[%s,atoms=[1]]' % list(lens), lens=lens, atoms=[1])
     add('parload_job', 'parload[[3, 2],frame= for file 0]', lens=(3, 2), frame_for=0)
+    # several single-frame entries mixed with whole trajectories (their length-1 slots are re-inserted into the sounded lengths)
+    add('parload_job', 'parload[[3, 2, 3],frame= for files 0 and 2]', lens=(3, 2, 3), frame_for=(0, 2))
+    add('parload_job', 'parload[[2, 3, 2],frame= for files 0 and 1]', lens=(2, 3, 2), frame_for=(0, 1))
+    add('parload_job', 'parload[[3, 2, 2, 2, 3],frame= for files 1, 2 and 4]', lens=(3, 2, 2, 2, 3), frame_for=(1, 2, 4))
+    add('parload_job', 'parload[[2, 2, 3, 2],frame= for files 0 and 3]', lens=(2, 2, 3, 2), frame_for=(0, 3))
     for lens in ((3,), (2,), (3, 2)):
         add('parload_job', 'parload[%s,stride=2,options per file (args=)]' % list(lens), lens=lens, stride=2, as_args=True)
     add('parload_job', 'parload[[3],atoms=[1],options per file (args=)]', lens=(3,), atoms=[1], as_args=True)
